@@ -553,3 +553,8 @@ def run_search(case):
                                        f"answer delivered after {at}s (< 1 s) was not returned: {rec['outcome']}"))
     sig = ("search", at, len(txs), rec["outcome"] if rec else status)
     return C.package(world, case, violations, sig, True, {"entry_search": 1})
+
+
+def evidence_extra(tier):
+    return {"systematic_cases": len(_space(tier)), "seeded_cases": N_RANDOM[tier],
+            "systematic_part": "all outcome sequences of length <= %d before a probe x transports x keep-alive x 3 settings; entry points" % SWEEP_LEN[tier]}
